@@ -133,7 +133,9 @@ def tlc_cmd(module, cfg, workers=1, extra=(), xmx="3g", lib=None):
             "-Dtlc2.tool.queue.IStateQueue=StateDeque",
             f"-DTLA-Library={libs}",
             "-cp", f"{JAR}:{CM}", "tlc2.TLC",
-            "-workers", str(workers), "-noGenerateSpecTE", "-cleanup",
+            # (no checkpoints: the depth-first queue does not support them, and a validation that runs longer
+            # than TLC's 30-minute checkpoint interval would end with an exception)
+            "-workers", str(workers), "-noGenerateSpecTE", "-cleanup", "-checkpoint", "0",
             "-config", cfg] + list(extra) + [module]
 
 
